@@ -154,7 +154,11 @@ type rcase struct {
 	LocalMode string            `json:"local_mode"` // deny | allow | direct
 	MITM      bool              `json:"mitm,omitempty"`
 	NGen      int               `json:"n_generated_rules"` // connect-to rules in front of the fixed routes
-	Targets   []target          `json:"targets"`
+	// Hosts: text of the hosts file the instance is constructed on ("" = the machine's own); Env: name of the
+	// environment profile of the process the instance runs in ("" = the harness's own environment), see child.go
+	Hosts   string   `json:"hosts,omitempty"`
+	Env     string   `json:"env,omitempty"`
+	Targets []target `json:"targets"`
 }
 
 // oneTarget is the replayable form of one evaluation: the target with the requests the same proxy
@@ -165,6 +169,8 @@ type oneTarget struct {
 	LocalMode string            `json:"local_mode"`
 	MITM      bool              `json:"mitm,omitempty"`
 	NGen      int               `json:"n_generated_rules"`
+	Hosts     string            `json:"hosts,omitempty"`
+	Env       string            `json:"env,omitempty"`
 	History   []target          `json:"history,omitempty"`
 	Target    target            `json:"target"`
 }
@@ -193,7 +199,8 @@ var localNamesOnce struct {
 type dialRec struct{ Pre, Post string }
 
 func runCase(ctx *core.Ctx, h *hops, rc *rcase) {
-	names := localNames()
+	view := viewOf(rc.Hosts)
+	names := view.localNames()
 	route := h.concrete(rc.Route)
 	route.LocalhostDirect = rc.LocalMode == "direct"
 	fc := reqmodel.FullCfg{
@@ -219,13 +226,13 @@ func runCase(ctx *core.Ctx, h *hops, rc *rcase) {
 			dmu.Lock()
 			dials = append(dials, dialRec{address, post})
 			dmu.Unlock()
-			if _, ok := h.byAddr[post]; !ok {
+			if _, ok := h.byAddr[post]; !ok && !child.isSink(post) {
 				return n, deadAddr // never leave the scripted listeners
 			}
 			return n, post
 		}
 	}
-	p, err := rig.StartProxy(opts)
+	p, err := startProxyOn(ctx, opts, view)
 	if err != nil {
 		ctx.Crash("proxy starts with a valid configuration", "", rc, err.Error())
 		return
@@ -237,14 +244,14 @@ func runCase(ctx *core.Ctx, h *hops, rc *rcase) {
 	for i := range rc.Targets {
 		reqs = append(reqs, rc.Targets[i].seqReq())
 	}
-	answers := reqmodel.AskRouteSeq(ctx.Model, &route, hostsAliases.own, reqs)
+	answers := reqmodel.AskRouteSeqEnv(ctx.Model, &route, view.own, reqs, child.ambient())
 
 	sess := &session{addr: p.Addr}
 	defer sess.close()
 	var seen []*routed
 	for i := range rc.Targets {
 		t := rc.Targets[i]
-		one := oneTarget{Kind: "one", Route: rc.Route, LocalMode: rc.LocalMode, MITM: rc.MITM, NGen: rc.NGen, History: rc.Targets[:i:i], Target: t}
+		one := oneTarget{Kind: "one", Route: rc.Route, LocalMode: rc.LocalMode, MITM: rc.MITM, NGen: rc.NGen, Hosts: rc.Hosts, Env: rc.Env, History: rc.Targets[:i:i], Target: t}
 		fresh := func() {
 			h.reset()
 			dmu.Lock()
@@ -490,6 +497,7 @@ func localNames() []string {
 }
 
 func Run(ctx *core.Ctx) {
+	maybeChild(ctx)
 	ctx.SetRule("generated configurations {no upstream, static http/https/socks5 proxy, PAC script, custom proxy function} x " +
 		"direct-domains include/exclude lists x proxy-localhost deny/allow/direct x connect-to lists (generated rules with empty fields in front of the fixed routes), " +
 		"each started as a real proxy (forwarder.NewHTTPProxy) and serving a SEQUENCE of 4-8 requests, most of them to one host[:port] with different paths, queries, " +
@@ -498,12 +506,23 @@ func Run(ctx *core.Ctx) {
 		"each branch returning a string from the result grammar (keywords in any case, unknown ones, h:p, [v6]:p, missing/empty/non-numeric/out-of-range port, extra spaces, several ';' entries), an arbitrary string, a number, or throwing; " +
 		"target hosts include localhost, loopback literals and every name the machine's hosts file maps to a loopback address; " +
 		"the model is one instance folded over the whole sequence (C05 routeseq), compared position by position; " +
-		"non-trivial = the configuration has a proxy function or a generated connect-to rule applies; distinct = distinct (configuration, target)")
+		"the same in child processes whose ENVIRONMENT names recording sink proxies (HTTP_PROXY / HTTPS_PROXY / ALL_PROXY / NO_PROXY in upper, lower and mixed case, " +
+		"NO_PROXY naming a target or not) with the no-upstream class over-represented: the sinks must never be dialled, the model takes the environment as an input; " +
+		"half of a child's cases construct the instance on a GENERATED HOSTS FILE (mixed-case loopback aliases, other records) and aim at its names in several letter cases; " +
+		"dial RETRIES: a connect-to rule maps a live listener's address (as IP literal or as localhost; origin of a plain request, CONNECT target, upstream proxy) to a port that " +
+		"refuses the first k = 0..Retry.Attempts attempts (opened when the dialer's own retry counter shows k attempts), rule lists with non-matching rules in front and matching " +
+		"rules behind: the unmapped address and the later rules' destination must see no connection, the request succeeds iff an attempt within the budget connects; " +
+		"non-trivial = the configuration has a proxy function or a generated connect-to rule applies, or the case runs in an environment child / on a generated hosts file / is a retry case; " +
+		"distinct = distinct (configuration, environment, hosts file, target)")
 	checkHostsFile(ctx)
 	for _, c := range core.LoadCorpus(ctx.Root, "C05") {
 		Replay(ctx, c)
 	}
 	pacAPI(ctx)
+	retryCases(ctx)
+	// the same in child processes whose environment names proxies, partly on generated hosts files (child.go);
+	// they run beside the cases of this process
+	waitChildren := startChildren(ctx)
 	nCases := ctx.N(800, 9000)
 	jobs := make(chan *rcase, 32)
 	var wg sync.WaitGroup
@@ -531,6 +550,7 @@ func Run(ctx *core.Ctx) {
 	}
 	close(jobs)
 	wg.Wait()
+	waitChildren()
 }
 
 // checkHostsFile compares hostsfile.LocalhostAliases (what NewHTTPProxy appends to the localhost names)
@@ -561,6 +581,7 @@ func checkHostsFile(ctx *core.Ctx) {
 }
 
 func Replay(ctx *core.Ctx, raw json.RawMessage) {
+	maybeChild(ctx)
 	var k struct {
 		Kind string `json:"kind"`
 	}
@@ -572,16 +593,49 @@ func Replay(ctx *core.Ctx, raw json.RawMessage) {
 		return
 	case "pac-string", "redirect", "splithostport":
 		return // API-level cases are regenerated by pacAPI on every run
+	case "environment":
+		var j childJob
+		if err := json.Unmarshal(raw, &j); err != nil {
+			core.Fatalf("bad C05 case: %v", err)
+		}
+		runChild(ctx, j)
+		return
+	case "hostsfile-generated":
+		var hf struct {
+			Hosts string `json:"hosts"`
+		}
+		json.Unmarshal(raw, &hf)
+		rc = rcase{Kind: "routing", Route: reqmodel.RouteCfg{Base: "none"}, LocalMode: "allow", Hosts: hf.Hosts, Env: child.profile()}
+		rc.Targets = []target{{Kind: "plain", Authority: "localhost", ID: "replay"}}
+		h, err := newHops(ctx, 98)
+		if err != nil {
+			core.Fatalf("cannot start scripted hops: %v", err)
+		}
+		defer h.close()
+		runCase(ctx, h, &rc)
+		return
+	case "retry":
+		var c retryCase
+		if err := json.Unmarshal(raw, &c); err != nil {
+			core.Fatalf("bad C05 case: %v", err)
+		}
+		runRetryCase(ctx, &c)
+		return
 	case "one":
 		var o oneTarget
 		if err := json.Unmarshal(raw, &o); err != nil {
 			core.Fatalf("bad C05 case: %v", err)
 		}
-		rc = rcase{Kind: "routing", Route: o.Route, LocalMode: o.LocalMode, MITM: o.MITM, NGen: o.NGen, Targets: append(append([]target{}, o.History...), o.Target)}
+		rc = rcase{Kind: "routing", Route: o.Route, LocalMode: o.LocalMode, MITM: o.MITM, NGen: o.NGen, Hosts: o.Hosts, Env: o.Env, Targets: append(append([]target{}, o.History...), o.Target)}
 	default:
 		if err := json.Unmarshal(raw, &rc); err != nil {
 			core.Fatalf("bad C05 case: %v", err)
 		}
+	}
+	if rc.Env != child.profile() {
+		// the case belongs to a process with that environment
+		runChild(ctx, childJob{Profile: rc.Env, Cases: []rcase{rc}})
+		return
 	}
 	h, err := newHops(ctx, 99)
 	if err != nil {
